@@ -282,20 +282,26 @@ const (
 )
 
 type c04Atom struct {
-	text    string
-	members string
+	text     string
+	members  string
+	nl, high bool
 }
 
 // single-byte atoms with known member bytes
 var c04Atoms = []c04Atom{
-	{`[ab]`, "ab"}, {`.`, "ab.K\x00\xff"}, {`\d`, "019"}, {`[^a]`, "bc\n0"}, {`[a-c]`, "abc"}, {`(?s:.)`, "a\n\xe9"},
-	{`(?i:k)`, "kK"}, {`[\x00-\x20]`, "\x00 \n"}, {`[^\n]`, "ab."}, {`\w`, "a0_"},
+	{text: `[ab]`, members: "ab"}, {text: `.`, members: "ab.K\x00\xff"}, {text: `\d`, members: "019"}, {text: `[^a]`, members: "bc\n0"},
+	{text: `[a-c]`, members: "abc"}, {text: `(?s:.)`, members: "a\n\xe9"}, {text: `(?i:k)`, members: "kK"},
+	{text: `[\x00-\x20]`, members: "\x00 \n"}, {text: `[^\n]`, members: "ab."}, {text: `\w`, members: "a0_"},
 }
 
-// atoms whose members are expression meta characters (captured and substituted into later expressions)
-// (the first three can only match ASCII bytes other than newline)
+// atoms whose members are expression meta characters (captured and substituted into later expressions);
+// nl / high: the atom can match a newline / a byte >= 0x80
 var c04MetaAtoms = []c04Atom{
-	{`[.+*a(\[\\|?)^$]`, ".+*a([\\|?)^$"}, {`[ab]`, "ab"}, {`[a.]`, "a."}, {`.`, "ab.*\xe9"}, {`[^z]`, "a.\n+b\\\xe9"}, {`(?s:.)`, "\n.a\xff"}, {`[\n\x80-\xff]`, "\n\x80\xe9"},
+	{text: `[.+*a(\[\\|?)^$]`, members: ".+*a([\\|?)^$"}, {text: `[ab]`, members: "ab"}, {text: `[a.]`, members: "a."},
+	{text: `.`, members: "ab.*\xe9", high: true}, {text: `[a\xe9]`, members: "a\xe9", high: true},
+	{text: `[\n.a]`, members: "\n.a", nl: true},
+	{text: `[^z]`, members: "a.\n+b\\\xe9", nl: true, high: true}, {text: `(?s:.)`, members: "\n.a\xff", nl: true, high: true},
+	{text: `[\n\x80-\xff]`, members: "\n\x80\xe9", nl: true, high: true},
 }
 
 type c04Piece struct {
@@ -491,7 +497,7 @@ func c04FixTree(n *vregex.Node, ctr *int) {
 // analysis gives up on every loop, so suffix shortcuts need loop-free trees).
 func c04BoundLoops(n *vregex.Node) {
 	if n.Kind == vregex.KRepeat && n.Max < 0 {
-		n.Max = n.Min + 2
+		n.Max = n.Min + 1
 		n.RStyle = 1
 	}
 	for _, s := range n.Sub {
@@ -597,7 +603,7 @@ func (g *c04Gen) atom(pool []c04Atom) c04Piece {
 }
 
 func (g *c04Gen) sub(bounded bool) c04Piece {
-	cfg := vregex.Config{MaxDepth: 2, MaxCount: 4, MaxPaths: 400, MaxRepProd: 40, Assertions: g.cfg.anchored, Alphabet: c04Alphabet}
+	cfg := vregex.Config{MaxDepth: 2, MaxCount: 3, MaxPaths: 40, MaxRepProd: 12, Assertions: g.cfg.anchored, Alphabet: c04Alphabet}
 	re := vregex.Gen(cfg).Draw(g.rt, "tree")
 	c04FixTree(re.Root, &g.name)
 	if bounded {
@@ -690,7 +696,9 @@ func (g *c04Gen) elem(mk func() []c04Piece) *c04Elem {
 				g.c.Label("excluded:" + c04FindStaleCache)
 				continue
 			}
-			if g.cfg.open[c04FindReanchor] && e.assert && (e.an.prefix != "" || e.an.suffix != "") {
+			// also excluded: a failed search leaves the offset at the end of the data and the element is searched again
+			// on the empty rest in the next pass, where expressions like ^$ match
+			if g.cfg.open[c04FindReanchor] && e.assert && (e.an.prefix != "" || e.an.suffix != "" || e.rx.Match(nil)) {
 				g.c.Count("excluded_known", 1)
 				g.c.Label("excluded:" + c04FindReanchor)
 				continue
@@ -712,8 +720,14 @@ func (g *c04Gen) elem(mk func() []c04Piece) *c04Elem {
 // chain draws a definer (named capture v) and a user (@v@) element.
 func (g *c04Gen) chain(idx int) [2]*c04Elem {
 	v := fmt.Sprintf("v%d", idx)
-	// while these are open the capture can only match ASCII bytes other than newline
-	tame := g.cfg.open[c04FindPrecondNL] || g.cfg.open[c04FindVarHighByte]
+	// while these are open the capture cannot match a newline / a byte >= 0x80
+	tameNL, tameHigh := g.cfg.open[c04FindPrecondNL], g.cfg.open[c04FindVarHighByte]
+	var metaAtoms []c04Atom
+	for _, a := range c04MetaAtoms {
+		if !(a.nl && tameNL) && !(a.high && tameHigh) {
+			metaAtoms = append(metaAtoms, a)
+		}
+	}
 	def := g.elem(func() []c04Piece {
 		var ps []c04Piece
 		if g.chance(60, "def-pre") {
@@ -728,8 +742,8 @@ func (g *c04Gen) chain(idx int) [2]*c04Elem {
 			n := 1 + g.uni(2, "def-n")
 			for i := 0; i < n; i++ {
 				a := g.atom(c04MetaAtoms)
-				if tame && !strings.HasPrefix(a.atom.text, "[") || tame && strings.Contains(a.atom.text, "^z") || tame && strings.Contains(a.atom.text, "x80") {
-					a.atom = c04MetaAtoms[g.uni(3, "def-tame")]
+				if a.atom.nl && tameNL || a.atom.high && tameHigh {
+					a = g.atom(metaAtoms)
 					excluded = true
 				}
 				ps = append(ps, a)
@@ -737,15 +751,15 @@ func (g *c04Gen) chain(idx int) [2]*c04Elem {
 		case k < 8:
 			l := g.lit(1, 2)
 			for i, b := range l.lit {
-				if tame && (b == '\n' || b >= 0x80) {
+				if tameNL && b == '\n' || tameHigh && b >= 0x80 {
 					l.lit[i] = 'a'
 					excluded = true
 				}
 			}
 			ps = append(ps, l)
 		default:
-			if tame {
-				ps = append(ps, g.atom(c04MetaAtoms[:3]))
+			if tameNL || tameHigh {
+				ps = append(ps, g.atom(metaAtoms))
 				excluded = true
 			} else {
 				ps = append(ps, g.sub(true))
@@ -1341,4 +1355,59 @@ func TestVerifC04(t *testing.T) {
 func TestVerifC04Anchored(t *testing.T) {
 	cfg := c04Cfg{name: t.Name(), anchored: true, open: vlib.OpenFindings()}
 	vlib.Check(t, "C04", func(rt *rapid.T, c *vlib.Case) { c04Prop(rt, c, cfg) })
+}
+
+// ---------------------------------------------------------------------------------------------
+// hand-written worlds (fixed cases)
+
+// c04Manual runs one query on a hand-written world and returns "" when the
+// engine and the plain scan agree.
+func c04Manual(w *c04World, text string) (msg string) {
+	defer func() {
+		if rec := recover(); rec != nil {
+			msg = fmt.Sprintf("query %q: SearchStreams panicked: %v", text, rec)
+		}
+	}()
+	dir, err := os.MkdirTemp("", "c04fixed-")
+	if err != nil {
+		return "harness error: " + err.Error()
+	}
+	defer os.RemoveAll(dir)
+	r, convs, ref, err := w.open(dir)
+	if err != nil {
+		return "harness error: " + err.Error()
+	}
+	defer r.Close()
+	o := c04RunQuery(r, convs, ref, text)
+	switch {
+	case o.ParseErr != nil:
+		return fmt.Sprintf("query %q does not parse: %q", text, o.ParseErr.Error())
+	case o.SearchErr != nil:
+		return fmt.Sprintf("query %q: SearchStreams failed: %q", text, o.SearchErr.Error())
+	case o.RefErr != nil:
+		return fmt.Sprintf("query %q: reference evaluator failed: %q", text, o.RefErr.Error())
+	}
+	if id, bad := o.diff(); bad {
+		return fmt.Sprintf("query %q: stream %d is %s by SearchStreams but the plain scan says %s; %s", text, id, c04Sel(o.Got[id]), c04Sel(o.Want[id]), c04DescribeStream(w, id))
+	}
+	return ""
+}
+
+// c04W builds a world of raw-only streams from "dir:payload" chunk lists.
+func c04W(streams ...[]c04Chunk) *c04World {
+	w := &c04World{}
+	for i, s := range streams {
+		w.Streams = append(w.Streams, &c04Stream{ID: uint64(i), Raw: s, Conv: map[string][]c04Chunk{}})
+	}
+	return w
+}
+
+func c04C(data string) c04Chunk { return c04Chunk{0, []byte(data)} }
+func c04S(data string) c04Chunk { return c04Chunk{1, []byte(data)} }
+
+func TestVerifC04Debug(t *testing.T) {
+	for _, q := range []string{`sdata:"b*" then cdata:"^\z"`, `sdata:"b*" then cdata:"c"`, `sdata:"b*" then cdata:"c*\z"`, `sdata:"b*" then cdata:"c*$"`, `cdata:"c*$"`, `cdata:"\z"`, `sdata:"b*" then cdata:"\z"`, `sdata:"b*" then cdata:"\bc"`, `sdata:"b*" then cdata:"^c*\z"`} {
+		qq, _ := query.Parse(q)
+		t.Log(qq.Conditions.String(), c04Manual(c04W([]c04Chunk{c04C("aaa")}), q))
+	}
 }
